@@ -79,8 +79,16 @@ type FuncContract struct {
 	Loops      map[int]*LoopAnn
 	Trusted    bool // contract assumed, body not verified (listed in evidence)
 	EnvAssume  []*Clause
+	SiteAsserts []*SiteAssert         // assertions at map-update sites selected by static map type
+	GhostEntry []GhostAssign          // ghost assignments executed on entry
+	CallAsserts map[string][]*Clause   // assertions at calls of the named callee (callee parameter names in scope)
 	SendAssert []*Clause // assertions at every send site in this function (bound var e)
 	Line       int
+}
+
+type SiteAssert struct {
+	MapType string
+	C       *Clause
 }
 
 type ExternDecl struct {
@@ -90,6 +98,7 @@ type ExternDecl struct {
 	Ensures  []*Clause
 	Requires []*Clause
 	Modifies []Expr
+	Pattern  string // for regexp methods: the literal pattern the assumed contract was written for
 }
 
 type Lemma struct {
@@ -116,7 +125,7 @@ type ContractFile struct {
 var directiveKw = map[string]bool{
 	"ghost": true, "on": true, "pred": true, "spec": true, "func": true, "requires": true, "ensures": true,
 	"modifies": true, "let": true, "safety": true, "loop": true, "assume": true, "lemma": true,
-	"extern": true, "axiom": true, "canary": true, "trusted": true, "sendassert": true,
+	"extern": true, "axiom": true, "canary": true, "callassert": true, "siteassert": true, "trusted": true, "sendassert": true,
 }
 
 var tagRe = regexp.MustCompile(`^\[([A-Za-z0-9_, ]*)\]\s*`)
@@ -251,6 +260,17 @@ func parseContractFile(path, pkg string, cf *ContractFile) error {
 		fail := func(e error) error { return fmt.Errorf("%s:%d: %v", d.file, d.line, e) }
 		switch kw {
 		case "ghost":
+			if len(fields) >= 4 && fields[1] == "entry" && cur != nil {
+				// ghost entry NAME = EXPR
+				r2 := strings.TrimSpace(rest[len("entry"):])
+				k := strings.Index(r2, "=")
+				e, err := parseExpr(r2[k+1:])
+				if err != nil {
+					return fail(err)
+				}
+				cur.GhostEntry = append(cur.GhostEntry, GhostAssign{strings.TrimSpace(r2[:k]), e})
+				continue
+			}
 			// ghost var NAME TYPE
 			if len(fields) < 4 || fields[1] != "var" {
 				return fail(fmt.Errorf("bad ghost decl"))
@@ -276,6 +296,36 @@ func parseContractFile(path, pkg string, cf *ContractFile) error {
 				os.Assigns = append(os.Assigns, GhostAssign{strings.TrimSpace(a[:k]), e})
 			}
 			cf.OnSends = append(cf.OnSends, os)
+		case "callassert":
+			// callassert CALLEE [tags] expr   (inside a func block)
+			if cur == nil {
+				return fail(fmt.Errorf("callassert outside func"))
+			}
+			r2 := strings.TrimSpace(strings.TrimPrefix(rest, fields[1]))
+			c, err := mkClause("callassert", r2, d.file, d.line)
+			if err != nil {
+				return err
+			}
+			if cur.CallAsserts == nil {
+				cur.CallAsserts = map[string][]*Clause{}
+			}
+			c.Name = fmt.Sprintf("%s.callassert(%s)%d", cur.Name, fields[1], len(cur.CallAsserts[fields[1]])+1)
+			cur.CallAsserts[fields[1]] = append(cur.CallAsserts[fields[1]], c)
+		case "siteassert":
+			// siteassert mapupdate(TYPE) [tags] expr  -- k, v are the stored key and value; locals by name
+			if cur == nil {
+				return fail(fmt.Errorf("siteassert outside func"))
+			}
+			m := regexp.MustCompile(`^mapupdate\((.*?)\)\s+(\[.*)$`).FindStringSubmatch(rest)
+			if m == nil {
+				return fail(fmt.Errorf("bad siteassert"))
+			}
+			c, err := mkClause("siteassert", m[2], d.file, d.line)
+			if err != nil {
+				return err
+			}
+			c.Name = fmt.Sprintf("%s.mapupdate(%s)%d", cur.Name, m[1], len(cur.SiteAsserts)+1)
+			cur.SiteAsserts = append(cur.SiteAsserts, &SiteAssert{MapType: m[1], C: c})
 		case "sendassert":
 			// sendassert Chan(e) [tags] expr
 			m := regexp.MustCompile(`^([A-Za-z0-9_.]+)\((\w+)\)\s*(.*)$`).FindStringSubmatch(rest)
@@ -477,13 +527,23 @@ func parseContractFile(path, pkg string, cf *ContractFile) error {
 					kind = "requires"
 				} else if strings.HasPrefix(r2, "modifies") {
 					kind = "modifies"
+				} else if strings.HasPrefix(r2, "pattern") {
+					// pattern `...` (rest of the directive up to the closing backquote)
+					r2 = strings.TrimSpace(r2[len("pattern"):])
+					if !strings.HasPrefix(r2, "`") || strings.Index(r2[1:], "`") < 0 {
+						return fail(fmt.Errorf("bad pattern"))
+					}
+					end := strings.Index(r2[1:], "`") + 1
+					ex.Pattern = r2[1:end]
+					r2 = strings.TrimSpace(r2[end+1:])
+					continue
 				} else {
 					return fail(fmt.Errorf("bad extern tail %q", r2))
 				}
 				r2 = strings.TrimSpace(r2[len(kind):])
 				// up to next " ensures " / " requires "
 				end := len(r2)
-				for _, k := range []string{" ensures ", " requires ", " modifies "} {
+				for _, k := range []string{" ensures ", " requires ", " modifies ", " pattern "} {
 					if i := strings.Index(r2, k); i >= 0 && i < end {
 						end = i
 					}
@@ -520,6 +580,7 @@ func parseContractFile(path, pkg string, cf *ContractFile) error {
 				return err
 			}
 			c.Name = strings.TrimSpace(rest[:k])
+			c.Kind = "axiom:" + pkg
 			cf.Axioms = append(cf.Axioms, c)
 			cur = nil
 		default:
